@@ -1,10 +1,39 @@
 (* Props/C02.v — Accepted bets are fully collateralised; house loss is bounded by its deposit.
-   PARTIAL: the per-step kernel facts of the max-loss bookkeeping and the withdrawal bound are proved; the
-   full coverage invariant over histories (DESIGN.md 6/C02, Appendix B) is decided per run by the Go
-   monitor (cover >= 0 for every participation and every outcome that can still win) + correspondence. *)
+   C02_coverage is the property over ALL histories of the model: in every reachable state, for every market, every participation p
+   and every outcome o of the market, the winnings p has promised on o (summed over the backing parts of all bets on o) minus
+   the stakes it has received on the other outcomes never exceed the liquidity p left in the book.  Proved by an invariant
+   through every local transition of a market (Proofs/Local.v) and through the whole fulfilment loop (Proofs/BookInv.v,
+   BookCover.v, CoverHist.v): max-loss bookkeeping (setMaxLoss), available-liquidity bound, round refresh with trimming, archive.
+   It needed the repair of D3 (stakes are non-negative).  Hypotheses: signers are user accounts, a market has fewer than 2^64
+   outcomes, and the validated constraint bet fee <= minimum bet amount.
+   After resolution the same inequality for the declared outcome says that what the participation is paid (liquidity + realised
+   profit once all its bets are settled) is not negative; the attribution of realised profit to settled bets is decided per run
+   by the EndBlock accounting monitor. *)
 From Coq Require Import ZArith Bool List.
-From Sge Require Import Lib.Dec Model.Types Model.Orderbook Proofs.BookFacts.
+From Sge Require Import Lib.Dec Model.Types Model.Orderbook Model.Mint Model.Chain Proofs.BookFacts Proofs.Custody
+     Proofs.BookAPI Proofs.BookInv Proofs.BookHist Proofs.BookCover Proofs.CoverHist Proofs.Local Witness.C01w.
+Import ListNotations.
 Open Scope Z_scope.
+
+Theorem C02_coverage : forall P bk supply vault MP t0 sw sd ops,
+  pr_bet_fee P <= pr_bet_min P ->
+  bget bk POOL = 0 -> bget bk HOUSEFEE = 0 -> bget bk BETFEE = 0 -> Forall valid_op ops ->
+  forall m x p o, get_ms (run (init bk supply P vault MP t0 sw sd) ops) m = Some x ->
+  In p (bk_parts (ms_book x)) -> In o (k_odds (ms_mkt x)) ->
+  pay_io (p_idx p) o (bets_of x) - (stake_i (p_idx p) (bets_of x) - stake_io (p_idx p) o (bets_of x)) <= p_liq p.
+Proof. exact coverage_over_histories. Qed.
+Print Assumptions C02_coverage.
+
+(* the invariant that carries it, per local transition of a market *)
+Theorem C02_invariant_step : forall P x x', pr_bet_fee P <= pr_bet_min P -> mcov x -> mtrans P x x' -> mcov x'.
+Proof. exact mcov_step. Qed.
+Print Assumptions C02_invariant_step.
+
+(* non-vacuity: in the witness history a participation has promised winnings on an outcome *)
+Example C02_coverage_witness :
+  existsb (fun e => existsb (fun p => existsb (fun o => 0 <? pay_io (p_idx p) o (bets_of (snd e))) (k_odds (ms_mkt (snd e))))
+                            (bk_parts (ms_book (snd e)))) (c_ms (run c01w_init c01w_ops)) = true.
+Proof. vm_compute. reflexivity. Qed.
 
 (* after every fulfilment the recorded current-round max loss covers the loss on the outcome just backed,
    while liquidity, profit, fee and settlement flag are untouched *)
